@@ -5,6 +5,7 @@ import re
 
 from ..suites import mutate as S
 from ..suites import construct as C
+from ..suites import deepimm as DI
 from .. import dump, gen, aliasprobe
 
 ID = "C04"
@@ -21,7 +22,12 @@ RULE = ("(a) mutate suite on ImmutableStructure classes and classes with Immutab
         "ImmutableStructure/FinalStructure/ImmutableField classes; (e) directed cases: mutable objects inside tuples / "
         "untyped positions of immutable instances, and fields declared immutable=True (Anything, Tuple, Set, untyped and "
         "typed Array/Deque/Map) inside a MUTABLE structure - accessor probe + constructor-argument aliasing with the whole "
-        "argument object graph walked; non-trivial = >=1 op/probe; distinct by case hash")
+        "argument object graph walked; (f) deep cases (suites/deepimm.py, oracle-only): 35 immutable classes whose field holds "
+        "structures inside collections inside structures (Deque/Array/Map/Tuple of structures at depth 2-4, untyped collections "
+        "of dicts/lists, collections held through Optional/AnyOf, Map with Structure keys), each alone and next to a defaulted "
+        "field: every object reachable through public reads at any depth x every mutator of its runtime type; every mutable "
+        "object reachable from the constructor argument mutated afterwards; and the argument being the wrapper object read "
+        "from another structure's field, that structure mutated afterwards; non-trivial = >=1 op/probe; distinct by case hash")
 ASSUMPTIONS = [
     "default configuration (defensive_copy_on_get on, no trusted instantiation); direct __dict__/object.__setattr__ access excluded",
     "the accessor half of the property is decided by the alias probe on the real code plus the accessor-table obligation; only top-level ops and nested-wrapper calls are in the Lean machine",
@@ -203,7 +209,7 @@ def alias_cases(rng, n):
 def cases(rng, tier):
     n = 250 if tier == "quick" else 3000
     return S.gen_cases(rng, tier, n, immutable=True) + S.gen_cases(rng, tier, n // 2, immutable=None) \
-        + alias_cases(rng, 25 if tier == "quick" else 400) + immfield_cases() + undefined_cases()
+        + alias_cases(rng, 25 if tier == "quick" else 400) + immfield_cases() + undefined_cases() + DI.cases()
 
 
 def search_cases(rng, tier):
@@ -217,6 +223,8 @@ def run_impl(case):
         return run_immfield(case)
     if case["suite"] == "undefimm":
         return run_undefimm(case)
+    if case["suite"] == "deepimm":
+        return DI.run_impl(case)
     res = C.run_impl(case)
     if "ok" not in res:
         return res
@@ -280,7 +288,7 @@ def _short_path(path):
 
 
 def line(case, impl):
-    if case["suite"] in ("immfield", "undefimm"):
+    if case["suite"] in ("immfield", "undefimm", "deepimm"):
         return None
     return S.line(case, impl) if case["suite"] == "mutate" else C.line(case, impl)
 
@@ -292,6 +300,8 @@ def tags(case, impl, model):
         return ["immfield:" + case["spec"]]
     if case["suite"] == "undefimm":
         return ["undefimm:" + ("class" if case["immutable_class"] else "fields")]
+    if case["suite"] == "deepimm":
+        return ["deepimm:" + case["mode"], "deepimm-shape:" + case["shape"]]
     return ["alias-probe" if case.get("probe") else "subclassing"] + (["impl:skipped"] if "ok" not in impl else [])
 
 
@@ -306,11 +316,15 @@ def describe(case, impl, model):
         return {"immfield": case, "probe_changed": impl.get("probe"), "ctor_leaks": impl.get("ctor_leaks")}
     if case["suite"] == "undefimm":
         return {"undefimm": case, "steps": impl.get("steps")}
+    if case["suite"] == "deepimm":
+        return {"deepimm": case, "leaks": impl.get("leaks"), "attempts": impl.get("attempts")}
     return {"cls": case["cls"], "kw": case["kw"], "probe_changed": impl.get("probe"), "ctor_leaks": impl.get("ctor_leaks")}
 
 
 def judge(case, impl, model):
     fails = []
+    if case["suite"] == "deepimm":
+        return None, DI.judge(case, impl)
     if case["suite"] == "undefimm":
         kind = "class" if case["immutable_class"] else "fields"
         for st in impl.get("steps", []):
